@@ -435,8 +435,9 @@ namespace
         std::string mode = x.str("mode", "single");
         int         T    = static_cast<int>(x.num("threads", 4));
         int         M    = static_cast<int>(x.num("ops", 200));
+        // obs: the mutex of the storage is the harness' instrumented one (its lock / unlock are events)
         Ev("tcfg").s("store", kind).s("mode", mode).i("threads", T).i("ops", M).b(
-            "stateful", kind != "stateless" && kind.rfind("low", 0) != 0);
+            "stateful", kind != "stateless" && kind.rfind("low", 0) != 0).b("obs", kind != "factory");
         if (kind.rfind("low", 0) == 0)
         {
             // child of the child: static destructors (the global leak report) run at exit()
@@ -461,6 +462,14 @@ namespace
             st.reset(new Store<fm::allocator_storage<fm::any_reference_storage, imutex>>(leaf));
         else if (kind == "stateless")
             st.reset(new Store<fm::allocator_storage<fm::direct_storage<sleaf>, imutex>>(sleaf{}));
+        // what the factory functions build (whatever type that is): with the instrumented mutex, and with the
+        // library's default mutex, whose locking shows only in what happens inside the leaf
+        else if (kind == "factory_m")
+            st.reset(new Store<decltype(fm::make_thread_safe_allocator<imutex>(tleaf(pool)))>(
+                fm::make_thread_safe_allocator<imutex>(tleaf(pool))));
+        else if (kind == "factory")
+            st.reset(new Store<decltype(fm::make_thread_safe_allocator(tleaf(pool)))>(
+                fm::make_thread_safe_allocator(tleaf(pool))));
         else
         {
             Ev("badcmd").s("op", kind);
